@@ -27,9 +27,11 @@
     REFUTED for one configuration (finding D24, C08NnProb.v, reproduced on the code): Radius / LSHNearest constructed with no_nhood_prob_of_arm - add_arm and
     remove_arm do not resize the list, and predict on a context with an empty neighbourhood then RAISES (numpy's choice: "a and p must have same size")
     instead of returning an arm of the current list; the model returns "rejected" there (nnprob_len_ok), and the theorems above speak about the answers that
-    are returned. *)
+    are returned.
+    NnProbGen.v states the finding for EVERY such bandit (no witness needed): training keeps "one probability per arm", add_arm always breaks it, remove_arm of a
+    present arm always breaks it, and from then on every predict on a context with an empty neighbourhood is rejected while predict_expectations still answers. *)
 From Coq Require Import List ZArith Bool Arith QArith Qcanon Permutation.
-From MW Require Import Num Assoc AssocFacts Rng Par CF CFInv CFClean CFForget CFSpec Matrix Lin Warm WarmInv Nbr NbrFacts NbrIndep LshFacts Clu Tree CellFacts Mab FacadeCF FacadeArms MoreFacts NumLaws CFAlg Sim Extra QcInst OrderFacts ExpIrrel LinInv FacadeLin LpInv NbrInv CluTreeInv FacadeAll ToyFacts C09All C10All LinForget LinSim MatrixFacts GaussJordan LinSpec NbrIndepGen CluIndep C17Lin WarmIdem C14More LshScale TreeLeaf Rename PopSpec CopyFacts StatFacts CluBatch LinWarm C08NnProb.
+From MW Require Import Num Assoc AssocFacts Rng Par CF CFInv CFClean CFForget CFSpec Matrix Lin Warm WarmInv Nbr NbrFacts NbrIndep LshFacts Clu Tree CellFacts Mab FacadeCF FacadeArms MoreFacts NumLaws CFAlg Sim Extra QcInst OrderFacts ExpIrrel LinInv FacadeLin LpInv NbrInv CluTreeInv FacadeAll ToyFacts C09All C10All LinForget LinSim MatrixFacts GaussJordan LinSpec NbrIndepGen CluIndep C17Lin WarmIdem C14More LshScale TreeLeaf Rename PopSpec CopyFacts StatFacts CluBatch LinWarm C08NnProb NnProbGen.
 Import ListNotations.
 
 Theorem C08_predict_after_an_arm_change_with_no_nhood_prob_refuted :
@@ -40,6 +42,35 @@ Theorem C08_predict_after_an_arm_change_with_no_nhood_prob_refuted :
   snd (run QcNum Z.eqb ToyRng d24_m0 [d24_fit; RemoveArm 2%Z; d24_query]) = [ODone; ODone; ORejected].
 Proof. exact @predict_after_add_arm_with_no_nhood_prob_refuted. Qed.
 Print Assumptions C08_predict_after_an_arm_change_with_no_nhood_prob_refuted.
+
+Theorem C08_every_arm_change_with_no_nhood_prob_makes_the_empty_neighbourhood_predict_raise :
+  forall (R A G : Type) (N : Num R) (aeqb : A -> A -> bool) (RG : RngOps R G),
+  (forall x y : A, aeqb x y = true <-> x = y) ->
+  forall (s : (@nbr R A G)) (a : A) (bz : option (A -> R -> R)) (p : list R) (l : (@lp R A G)) 
+    (seed : Z) (row : list R) (orc : list nat),
+  n_nnprob s = Some p ->
+  nnprob_len_ok s = true ->
+  neighborhood N s row orc = Some [] ->
+  nbr_row N aeqb RG (nbr_add_arm N aeqb s a bz) l seed row orc true = None /\
+  (In a (n_arms s) -> nbr_row N aeqb RG (nbr_remove_arm N aeqb s a) l seed row orc true = None).
+Proof. exact @arm_change_makes_empty_neighbourhood_predict_raise. Qed.
+Print Assumptions C08_every_arm_change_with_no_nhood_prob_makes_the_empty_neighbourhood_predict_raise.
+
+Theorem C08_training_keeps_one_no_nhood_probability_per_arm :
+  forall (R A G : Type) (N : Num R) (RG : RngOps R G) (s : (@nbr R A G)) (g : G) (ds : list A) 
+    (rs : list R) (cx : (@mat R)),
+  nnprob_len_ok (fst (nbr_fit N RG s g ds rs cx)) = nnprob_len_ok s /\
+  nnprob_len_ok (nbr_partial_fit N s ds rs cx) = nnprob_len_ok s.
+Proof. exact @training_keeps_one_probability_per_arm. Qed.
+Print Assumptions C08_training_keeps_one_no_nhood_probability_per_arm.
+
+Theorem C08_without_no_nhood_prob_arm_changes_are_harmless :
+  forall (R A G : Type) (N : Num R) (aeqb : A -> A -> bool) (s : (@nbr R A G)) (a : A)
+    (bz : option (A -> R -> R)),
+  n_nnprob s = None ->
+  nnprob_len_ok (nbr_add_arm N aeqb s a bz) = true /\ nnprob_len_ok (nbr_remove_arm N aeqb s a) = true.
+Proof. exact @no_list_configured_stays_ok. Qed.
+Print Assumptions C08_without_no_nhood_prob_arm_changes_are_harmless.
 
 Theorem C08_invariant_on_every_history :
   forall (R A G : Type) (N : Num R) (aeqb : A -> A -> bool) (RG : RngOps R G),
